@@ -25,6 +25,28 @@ Model: `Model/Cache.lean`.
 * `bare_read_stale_witness` (F6), `negative_cache_stale_witness` — the excluded points: a bare
   read of a deleted key answers from the cache; a cache that also stores "absent" answers keeps
   answering "absent" after the key is written.
+
+Round 3 (classes behind the seeded regressions and the negative-caching defect):
+
+* `keyed_cached_verdict_eq_uncached`, `keyed_sound_preserved`, `keyed_run_eq_cold` — the same
+  refinement with the cache key as a parameter: it holds for **every** key that determines the
+  context-free verdict (`KeyDetermines`; the witness hash does, being injective);
+  `tx_hash_key_breaks_verdict` — a key that forgets the witnesses (`hash()`) does not: a history
+  whose second block is accepted only because of the cache.
+* `block_verdict_eq_uncached`, `block_sound_preserved`, `node_run_eq_cold` — block-level
+  (`BlockTxsVerifier::verify`: one fetch, all results put, cycle sum) and node-level: over every
+  sequence of context changes (reorganisations to any context), blocks, pool submissions, dry runs
+  and evictions a node with a cache gives the answers of a node without one.
+  `skip_time_relative_on_hit_breaks_verdict` — if the hit path does not re-run the time-relative
+  checks, a reorganisation to a lower context makes the two nodes disagree.
+* `bare_read_eq_col`, `present_preserved`, `bare_run_eq_cold` — a get-or-fill cache that files only
+  positive answers answers **bare** reads like the column, for present and absent keys, over every
+  interleaving of writes, reads (before and after the write) and evictions, and deletes of uncached
+  keys; `negative_fill_PreFix_breaks_bare_run` — the pre-fix fill rule (file whatever the column
+  said) does not, without any delete.
+* `cells_run_eq_cold`, `have_cell_from_cache_breaks_liveness` — liveness is read from the uncached
+  column and data only behind it: every history of creations, consumptions, loads, liveness and
+  data queries is answered like a cache-free store; a `have_cell` with a cache fast path is not.
 -/
 namespace CkbVerif.C14
 open CkbVerif.Cache
@@ -282,5 +304,470 @@ theorem negative_cache_stale_witness :
     let r0 := readNeg col0 [] 1
     let col1 : Nat → Option Nat := fun x => if x = 1 then some 10 else none
     (readNeg col1 r0.1 1).2 = none ∧ col1 1 = some 10 := by decide
+
+
+/-! ## round 3: the key, blocks, a node over changing contexts -/
+
+/-- entries found under `key w` are what a full verification of `w` returns -/
+def SoundK (key : Nat → Nat) (k : Content) (m : Nat) (c : VCache) : Prop :=
+  ∀ w e, c.peek (key w) = some e → full k m true w = .ok e
+
+/-- the key determines the context-free verdict: transactions filed under one key verify alike -/
+def KeyDetermines (key : Nat → Nat) (k : Content) (m : Nat) : Prop :=
+  ∀ w w', key w = key w' → full k m true w = full k m true w'
+
+/-- an injective key (the witness hash covers the whole transaction) determines everything -/
+theorem keyDetermines_of_injective {key : Nat → Nat} (hi : ∀ w w', key w = key w' → w = w')
+    (k : Content) (m : Nat) : KeyDetermines key k m := by
+  intro w w' h; rw [hi w w' h]
+
+/-- the code as written (`witness_hash()`) is the identity key -/
+theorem cachedK_id (k : Content) (m : Nat) (c : VCache) (tr : Bool) (w : Nat) :
+    cachedK id k m c tr w = cached k m c tr w := rfl
+
+/-- **Cached verdict = uncached verdict for any key**, given the entries are sound under it. -/
+theorem keyed_cached_verdict_eq_uncached {key : Nat → Nat} {k : Content} {m : Nat} {c : VCache}
+    (hs : SoundK key k m c) (tr : Bool) (w : Nat) : cachedK key k m c tr w = full k m tr w := by
+  unfold cachedK
+  cases hp : c.peek (key w) with
+  | none => rfl
+  | some e => simp only []; rw [full_of_ok_true (hs w e hp) tr]
+
+/-- soundness under the key survives every verification and eviction — provided the key
+determines the context-free verdict, because a put under `key w` is later found by every `w'`
+with the same key -/
+theorem keyed_sound_preserved {key : Nat → Nat} {k : Content} {m : Nat} {c : VCache}
+    (hk : KeyDetermines key k m) (hs : SoundK key k m c) (op : VOp) :
+    SoundK key k m (vstepK key k m c op).1 := by
+  cases op with
+  | verify w tr =>
+    simp only [vstepK]
+    cases hr : cachedK key k m c tr w with
+    | error e => simpa using hs
+    | ok e =>
+      simp only []
+      intro w' e' hp
+      rw [peek_cons_filter] at hp
+      by_cases h : key w' = key w
+      · simp [h] at hp; subst hp
+        rw [keyed_cached_verdict_eq_uncached hs] at hr
+        rw [hk w' w h]
+        unfold full at hr ⊢
+        cases tr <;> simp_all
+      · simp [h] at hp; exact hs w' e' hp
+  | evict w =>
+    simp only [vstepK]
+    intro w' e' hp
+    rw [peek_filter] at hp
+    by_cases h : key w' = key w
+    · simp [h] at hp
+    · simp [h] at hp; exact hs w' e' hp
+
+/-- **Any history, any key that determines the context-free verdict**: cached run = cache-free run. -/
+theorem keyed_run_eq_cold {key : Nat → Nat} {k : Content} {m : Nat} {c : VCache}
+    (hk : KeyDetermines key k m) (hs : SoundK key k m c) (ops : List VOp) :
+    vrunK key k m c ops = vrunCold k m ops := by
+  induction ops generalizing c with
+  | nil => rfl
+  | cons op ops ih =>
+    have hs' := keyed_sound_preserved hk hs op
+    cases op with
+    | verify w tr =>
+      simp only [vrunK, vrunCold]
+      rw [ih hs']
+      simp [vstepK, keyed_cached_verdict_eq_uncached hs]
+      cases full k m tr w <;> rfl
+    | evict w =>
+      simp only [vrunK, vrunCold]
+      rw [ih hs']
+      simp [vstepK]
+
+theorem soundK_nil (key : Nat → Nat) (k : Content) (m : Nat) : SoundK key k m [] := by
+  intro w e h; simp [VCache.peek] at h
+
+/-- non-vacuity: the identity key (the witness hash) on the example content -/
+example : vrunK id exK 1000 [] [.verify 5 true, .verify 7 true, .verify 5 false] = vrunCold exK 1000 [.verify 5 true, .verify 7 true, .verify 5 false] :=
+  keyed_run_eq_cold (keyDetermines_of_injective (fun _ _ h => h) exK 1000) (soundK_nil id exK 1000) _
+
+/-- the tx hash of the example: 5 and 7 are one transaction under two witness sets -/
+def exTxHash (w : Nat) : Nat := if w = 7 then 5 else w
+
+/-- **Keying by the tx hash breaks the property** (seed m1): branch A commits the transaction with
+the passing witnesses (5), branch B the same tx hash with failing witnesses (7); with the cache the
+second verification succeeds, without it the script error is reported. The key does not determine
+the verdict, so `keyed_run_eq_cold` does not apply. -/
+theorem tx_hash_key_breaks_verdict :
+    vrunK exTxHash exK 1000 [] [.verify 5 true, .verify 7 true] = [some (.ok ⟨500, 5⟩), some (.ok ⟨500, 5⟩)] ∧
+    vrunCold exK 1000 [.verify 5 true, .verify 7 true] = [some (.ok ⟨500, 5⟩), some (.error .script)] ∧
+    ¬ KeyDetermines exTxHash exK 1000 := by
+  refine ⟨by decide, by decide, ?_⟩
+  intro h
+  have := h 7 5 (by decide)
+  revert this; decide
+
+/-- **Skipping the time-relative checks on a hit breaks the property** (seed m2): verified while
+mature, then again in a context where it is immature (after a reorganisation). -/
+theorem skip_time_relative_on_hit_breaks_verdict :
+    cachedNoTimeRel exK 1000 [(3, ⟨300, 3⟩)] false 3 = .ok ⟨300, 3⟩ ∧
+    cached exK 1000 [(3, ⟨300, 3⟩)] false 3 = .error .timeRelative ∧
+    full exK 1000 false 3 = .error .timeRelative ∧ Sound exK 1000 [(3, ⟨300, 3⟩)] := by
+  refine ⟨by decide, by decide, by decide, ?_⟩
+  intro w e h
+  simp only [VCache.peek, List.find?] at h
+  by_cases hw : w = 3
+  · subst hw; simp at h; subst h; decide
+  · have : ((3 : Nat) == w) = false := by simp; omega
+    simp [this] at h
+
+/-! ### blocks -/
+
+theorem txResults_eq_cold {k : Content} {m : Nat} {c : VCache} (hs : Sound k m c) (txs : List (Nat × Bool)) :
+    txResults k m c txs = txResults k m [] txs := by
+  induction txs with
+  | nil => rfl
+  | cons t rest ih =>
+    obtain ⟨w, tr⟩ := t
+    simp only [txResults]
+    rw [cached_verdict_eq_uncached hs, cached_verdict_eq_uncached (sound_nil k m), ih]
+
+/-- every result of a successful block is what a full verification returns -/
+theorem txResults_sound {k : Content} {m : Nat} (txs : List (Nat × Bool)) (rs : List (Nat × Completed))
+    (h : txResults k m [] txs = .ok rs) : ∀ r ∈ rs, full k m true r.1 = .ok r.2 := by
+  induction txs generalizing rs with
+  | nil => simp [txResults] at h; subst h; simp
+  | cons t rest ih =>
+    obtain ⟨w, tr⟩ := t
+    simp only [txResults] at h
+    rw [cached_verdict_eq_uncached (sound_nil k m)] at h
+    cases hf : full k m tr w with
+    | error e => simp [hf] at h
+    | ok r =>
+      simp only [hf] at h
+      cases hr : txResults k m [] rest with
+      | error e => simp [hr] at h
+      | ok rs' =>
+        simp only [hr] at h
+        cases h
+        intro x hx
+        simp only [List.mem_cons] at hx
+        rcases hx with hx | hx
+        · subst hx
+          simp only
+          unfold full at hf ⊢
+          cases tr <;> simp_all
+        · exact ih rs' hr x hx
+
+theorem putAll_sound {k : Content} {m : Nat} (rs : List (Nat × Completed)) {c : VCache} (hs : Sound k m c)
+    (hr : ∀ r ∈ rs, full k m true r.1 = .ok r.2) : Sound k m (putAll c rs) := by
+  induction rs generalizing c with
+  | nil => simpa [putAll] using hs
+  | cons r rest ih =>
+    simp only [putAll, List.foldl_cons]
+    apply ih
+    · intro w' e' hp
+      rw [peek_cons_filter] at hp
+      by_cases h : w' = r.1
+      · subst h; simp at hp; subst hp; exact hr r (by simp)
+      · simp [h] at hp; exact hs w' e' hp
+    · intro x hx; exact hr x (by simp [hx])
+
+/-- **A block is judged alike with and without the cache**: verdict, error class, per-transaction
+cycles and fees (`BlockExt.{cycles, txs_fees}`), and the cycle-sum check. -/
+theorem block_verdict_eq_uncached {k : Content} {m : Nat} {c : VCache} (hs : Sound k m c)
+    (txs : List (Nat × Bool)) : (blockVerify k m c txs).2 = (blockVerify k m [] txs).2 := by
+  unfold blockVerify
+  rw [txResults_eq_cold hs]
+  cases txResults k m [] txs with
+  | error e => rfl
+  | ok rs => simp only []; split <;> rfl
+
+/-- … and what it puts into the cache keeps the cache sound -/
+theorem block_sound_preserved {k : Content} {m : Nat} {c : VCache} (hs : Sound k m c)
+    (txs : List (Nat × Bool)) : Sound k m (blockVerify k m c txs).1 := by
+  unfold blockVerify
+  rw [txResults_eq_cold hs]
+  cases hr : txResults k m [] txs with
+  | error e => exact hs
+  | ok rs =>
+    simp only []
+    have := putAll_sound rs hs (txResults_sound txs rs hr)
+    split <;> exact this
+
+theorem nstep_sound {k : Content} {m : Nat} {since : Nat → Nat} {s : NodeS} (hs : Sound k m s.cache) (op : NOp) :
+    Sound k m (nstep k m since s op).1.cache := by
+  cases op with
+  | reorg ctx => exact hs
+  | block ws => exact block_sound_preserved hs _
+  | submit w => exact sound_preserved hs (.verify w (mature since s.ctx w))
+  | probe w => exact hs
+  | evict w => exact sound_preserved hs (.evict w)
+
+theorem nstep_ctx {k : Content} {m : Nat} {since : Nat → Nat} (s : NodeS) (op : NOp) :
+    (nstep k m since s op).1.ctx = match op with | .reorg c => c | _ => s.ctx := by
+  cases op <;> rfl
+
+/-- **A node with a verification cache answers like a node without one**, over every sequence of
+context changes (extensions and reorganisations to *any* context, in particular one with a lower
+number / median time than the one an entry was produced in), blocks, pool submissions, dry runs
+and evictions. -/
+theorem node_run_eq_cold {k : Content} {m : Nat} {since : Nat → Nat} {s : NodeS} (hs : Sound k m s.cache)
+    (ops : List NOp) : nrun k m since s ops = nrunCold k m since s.ctx ops := by
+  induction ops generalizing s with
+  | nil => rfl
+  | cons op ops ih =>
+    have hs' := nstep_sound (since := since) hs op
+    have hc := nstep_ctx (k := k) (m := m) (since := since) s op
+    cases op with
+    | reorg ctx => simp only [nrun, nrunCold]; rw [ih hs']; simp [nstep]
+    | block ws =>
+      simp only [nrun, nrunCold]; rw [ih hs']
+      simp only [nstep, block_verdict_eq_uncached hs]
+    | submit w =>
+      simp only [nrun, nrunCold]; rw [ih hs']
+      simp only [nstep, cached_verdict_eq_uncached hs]
+    | probe w =>
+      simp only [nrun, nrunCold]; rw [ih hs']
+      simp only [nstep, cached_verdict_eq_uncached hs]
+    | evict w => simp only [nrun, nrunCold]; rw [ih hs']; simp [nstep]
+
+/-- non-vacuity: transaction 3 carries `since = 10`; committed at context 12, the chain then
+reorganises to context 8 where the pool refuses it although cached, a block committing it is
+refused too, and it is accepted again at context 11; 7's script fails, 9 and 8 together exceed
+the block's cycle limit -/
+example : nrun exK 1000 (fun w => if w = 3 then 10 else 0) ⟨12, []⟩
+      [.block [3], .reorg 8, .submit 3, .probe 3, .block [3], .reorg 11, .submit 3, .block [7], .block [9, 8], .evict 3, .probe 3]
+    = [.blk (.ok [⟨300, 3⟩]), .none, .tx (.error .timeRelative), .tx (.error .timeRelative), .blk (.error (.tx .timeRelative)),
+       .none, .tx (.ok ⟨300, 3⟩), .blk (.error (.tx .script)), .blk (.error .cycles), .none, .tx (.ok ⟨300, 3⟩)] := by decide
+
+/-! ## round 3: store caches that file only positive answers -/
+
+/-- every cached key is in the column (nothing outlives its row) -/
+def Present {ν : Type} (s : Cached ν) : Prop := ∀ k v, s.peek k = some v → s.col k ≠ none
+
+/-- **Bare reads** (no presence guard) through a positive-only cache equal the column, for present
+*and absent* keys. -/
+theorem bare_read_eq_col {ν : Type} {content : Nat → ν} {s : Cached ν} (h : Coherent content s)
+    (hp : Present s) (k : Nat) : (s.read k).2 = s.col k := by
+  cases hc : s.col k with
+  | some v => exact hc ▸ store_cache_transparent h (by simp [hc])
+  | none =>
+    unfold Cached.read
+    cases hk : s.peek k with
+    | some v => exact absurd hc (hp k v hk)
+    | none => simp [hc]
+
+/-- what keeps `Present`: anything but the delete of a cached key (F6) -/
+def BareOk {ν : Type} (s : Cached ν) : SOp ν → Prop
+  | .delete k => s.peek k = none
+  | _ => True
+
+theorem peek_cons_ne {ν : Type} (s : Cached ν) (k k' : Nat) (v : ν) (h : k' ≠ k) :
+    Cached.peek { s with cache := (k, v) :: s.cache } k' = s.peek k' := by
+  unfold Cached.peek
+  have : ((k == k') = false) := by simp; omega
+  simp [List.find?, this]
+
+theorem peek_cons_eq {ν : Type} (s : Cached ν) (k : Nat) (v : ν) :
+    Cached.peek { s with cache := (k, v) :: s.cache } k = some v := by
+  unfold Cached.peek
+  simp [List.find?]
+
+theorem peek_filter_store {ν : Type} (s : Cached ν) (k k' : Nat) :
+    Cached.peek { s with cache := s.cache.filter (fun e => e.1 != k) } k' = if k' = k then none else s.peek k' := by
+  unfold Cached.peek
+  simp only
+  induction s.cache with
+  | nil => simp
+  | cons x xs ih => grind
+
+theorem present_preserved {ν : Type} {s : Cached ν} (hp : Present s) (op : SOp ν) (hb : BareOk s op) :
+    Present (sstep s op).1 := by
+  cases op with
+  | write k v =>
+    intro k' v' hk
+    simp only [sstep] at hk ⊢
+    by_cases h : k' = k
+    · simp [h]
+    · simp only [h, if_false]; exact hp k' v' hk
+  | delete k =>
+    intro k' v' hk
+    simp only [sstep] at hk ⊢
+    have hk' : s.peek k' = some v' := hk
+    by_cases h : k' = k
+    · subst h; simp only [BareOk] at hb; rw [hb] at hk'; cases hk'
+    · simp only [h, if_false]; exact hp k' v' hk'
+  | read k =>
+    simp only [sstep, Cached.read]
+    cases hk : s.peek k with
+    | some v => exact hp
+    | none =>
+      cases hc : s.col k with
+      | none => exact hp
+      | some v =>
+        intro k' v' hk'
+        simp only at hk' ⊢
+        by_cases h : k' = k
+        · subst h; simp [hc]
+        · rw [peek_cons_ne s k k' v h] at hk'; exact hp k' v' hk'
+  | evict k =>
+    intro k' v' hk
+    simp only [sstep] at hk ⊢
+    rw [peek_filter_store] at hk
+    by_cases h : k' = k
+    · simp [h] at hk
+    · simp [h] at hk; exact hp k' v' hk
+
+/-- the history is admissible for bare reads: content writes, and no delete of a key while it is cached -/
+def BareHist {ν : Type} (content : Nat → ν) : Cached ν → List (SOp ν) → Prop
+  | _, [] => True
+  | s, op :: ops => WriteOk content op ∧ BareOk s op ∧ BareHist content (sstep s op).1 ops
+
+theorem sstep_col {ν : Type} (s : Cached ν) (op : SOp ν) :
+    (sstep s op).1.col = match op with
+      | .write k v => fun x => if x = k then some v else s.col x
+      | .delete k => fun x => if x = k then none else s.col x
+      | _ => s.col := by
+  cases op with
+  | read k => exact read_col s k
+  | _ => rfl
+
+/-- **Every interleaving** of writes, reads (before the key exists and after), evictions and
+deletes of uncached keys is answered by bare reads through a positive-only cache exactly as by
+the column: a query issued before an insert never changes the answer after it. -/
+theorem bare_run_eq_cold {ν : Type} {content : Nat → ν} {s : Cached ν} (h : Coherent content s)
+    (hp : Present s) (ops : List (SOp ν)) (hh : BareHist content s ops) :
+    runBare s ops = runCold s.col ops := by
+  induction ops generalizing s with
+  | nil => rfl
+  | cons op ops ih =>
+    obtain ⟨hw, hb, hrest⟩ := hh
+    have h' := coherent_preserved h op hw
+    have hp' := present_preserved hp op hb
+    have hcol := sstep_col s op
+    cases op with
+    | read k =>
+      simp only [runBare, runCold]
+      rw [ih h' hp' hrest, hcol]
+      simp only [sstep, bare_read_eq_col h hp]
+    | write k v => simp only [runBare, runCold]; rw [ih h' hp' hrest, hcol]; rfl
+    | delete k => simp only [runBare, runCold]; rw [ih h' hp' hrest, hcol]; rfl
+    | evict k => simp only [runBare, runCold]; rw [ih h' hp' hrest, hcol]; rfl
+
+theorem present_empty {ν : Type} : Present (⟨fun _ => none, []⟩ : Cached ν) := by
+  intro k v h; simp [Cached.peek] at h
+
+/-- non-vacuity: key 1 is read before it exists, written, read, evicted, read; key 2 is deleted
+while uncached and read -/
+example : runBare (⟨fun _ => none, []⟩ : Cached Nat) [.read 1, .write 1 10, .read 1, .evict 1, .read 1, .write 2 20, .delete 2, .read 2]
+    = [some none, none, some (some 10), none, some (some 10), none, none, some none] := by decide
+example : BareHist (fun k => 10 * k) (⟨fun _ => none, []⟩ : Cached Nat) [.read 1, .write 1 10, .read 1, .evict 1, .read 1, .write 2 20, .delete 2, .read 2] := by
+  simp [BareHist, WriteOk, BareOk, sstep, Cached.read, Cached.peek]
+
+/-- **The pre-fix fill rule breaks it** (`get_block_extension` / `get_block_txs_hashes` before
+"store read caches must not keep a negative answer"): read before the write, write, read — no
+delete, no eviction — and the cached store answers "absent" for a stored key. -/
+theorem negative_fill_PreFix_breaks_bare_run :
+    let ops : List (SOp Nat) := [.read 1, .write 1 10, .read 1]
+    runBareNeg (⟨fun _ => none, []⟩ : NegCached Nat) ops = [some none, none, some none] ∧
+    runCold (fun _ => none) ops = [some none, none, some (some 10)] ∧
+    runBare (⟨fun _ => none, []⟩ : Cached Nat) ops = [some none, none, some (some 10)] ∧
+    BareHist (fun k => 10 * k) (⟨fun _ => none, []⟩ : Cached Nat) ops := by
+  refine ⟨by decide, by decide, by decide, ?_⟩
+  simp [BareHist, WriteOk, BareOk]
+
+/-! ## round 3: live cells -/
+
+structure CellsInv {ν : Type} (content : Nat → ν) (s : Cells ν) : Prop where
+  coh : Coherent content s.data
+  /-- `insert_cells` writes the data rows together with the liveness row -/
+  liveData : ∀ k, s.live k = true → s.data.col k ≠ none
+
+def CreateOk {ν : Type} (content : Nat → ν) : LOp ν → Prop
+  | .create k v => v = content k
+  | _ => True
+
+theorem cellsInv_preserved {ν : Type} {content : Nat → ν} {s : Cells ν} (h : CellsInv content s)
+    (op : LOp ν) (hw : CreateOk content op) : CellsInv content (lstep s op).1 := by
+  cases op with
+  | create k v =>
+    refine ⟨coherent_preserved h.coh (.write k v) hw, ?_⟩
+    intro k' hl
+    simp only [lstep, sstep] at hl ⊢
+    by_cases hk : k' = k
+    · simp [hk]
+    · simp only [hk, if_false] at hl ⊢; exact h.liveData k' hl
+  | consume k =>
+    refine ⟨coherent_preserved h.coh (.delete k) trivial, ?_⟩
+    intro k' hl
+    simp only [lstep, sstep] at hl ⊢
+    by_cases hk : k' = k
+    · simp [hk] at hl
+    · simp only [hk, if_false] at hl ⊢; exact h.liveData k' hl
+  | haveCell k => exact h
+  | getData k =>
+    simp only [lstep]
+    split
+    · refine ⟨coherent_preserved h.coh (.read k) trivial, ?_⟩
+      intro k' hl
+      have := read_col s.data k
+      simp only [sstep] at this
+      simp only [this]; exact h.liveData k' hl
+    · exact h
+  | load k =>
+    refine ⟨coherent_preserved h.coh (.read k) trivial, ?_⟩
+    intro k' hl
+    have := read_col s.data k
+    simp only [sstep] at this
+    simp only [lstep, this]; exact h.liveData k' hl
+  | evict k =>
+    refine ⟨coherent_preserved h.coh (.evict k) trivial, ?_⟩
+    intro k' hl
+    exact h.liveData k' hl
+
+/-- **Liveness and guarded cell data are cache-independent** over every history of creations,
+consumptions (attach / detach in any order), bare loads that only warm the cache (what script
+verification does for cell deps), liveness queries, data queries and evictions. -/
+theorem cells_run_eq_cold {ν : Type} {content : Nat → ν} {s : Cells ν} (h : CellsInv content s)
+    (ops : List (LOp ν)) (hw : ∀ op ∈ ops, CreateOk content op) :
+    lrun s ops = lrunCold s.live s.data.col ops := by
+  induction ops generalizing s with
+  | nil => rfl
+  | cons op ops ih =>
+    have h' := cellsInv_preserved h op (hw op (by simp))
+    have hw' : ∀ o ∈ ops, CreateOk content o := fun o ho => hw o (by simp [ho])
+    cases op with
+    | create k v => simp only [lrun, lrunCold]; rw [ih h' hw']; rfl
+    | consume k => simp only [lrun, lrunCold]; rw [ih h' hw']; rfl
+    | haveCell k => simp only [lrun, lrunCold]; rw [ih h' hw']; rfl
+    | getData k =>
+      simp only [lrun, lrunCold]; rw [ih h' hw']
+      have hc := read_col s.data k
+      simp only [sstep] at hc
+      by_cases hl : s.live k = true
+      · simp only [lstep, hl, if_true, hc]
+        rw [store_cache_transparent h.coh (h.liveData k hl)]
+      · simp only [lstep, hl]; rfl
+    | load k =>
+      simp only [lrun, lrunCold]; rw [ih h' hw']
+      have hc := read_col s.data k
+      simp only [sstep] at hc
+      simp only [lstep, hc]
+    | evict k => simp only [lrun, lrunCold]; rw [ih h' hw']; rfl
+
+theorem cellsInv_empty {ν : Type} (content : Nat → ν) : CellsInv content ⟨fun _ => false, ⟨fun _ => none, []⟩⟩ :=
+  ⟨coherent_empty content, fun k h => by simp at h⟩
+
+/-- non-vacuity: a cell is created, loaded as a cell dep, consumed; then it is dead and has no data
+(although the cache still holds it); after the detach of the consuming block it is live again -/
+example : lrun (⟨fun _ => false, ⟨fun _ => none, []⟩⟩ : Cells Nat)
+      [.haveCell 1, .create 1 10, .load 1, .haveCell 1, .getData 1, .consume 1, .haveCell 1, .getData 1, .create 1 10, .getData 1]
+    = [.live false, .none, .none, .live true, .data (some 10), .none, .live false, .data none, .none, .data (some 10)] := by decide
+
+/-- **A `have_cell` answered from the data cache breaks liveness** (seed m3): created, loaded,
+consumed — the column says dead, the fast path says live. -/
+theorem have_cell_from_cache_breaks_liveness :
+    let s0 : Cells Nat := ⟨fun _ => false, ⟨fun _ => none, []⟩⟩
+    let s3 := (lstep (lstep (lstep s0 (.create 1 10)).1 (.load 1)).1 (.consume 1)).1
+    haveCellFast s3 1 = true ∧ (lstep s3 (.haveCell 1)).2 = .live false ∧ s3.live 1 = false := by decide
 
 end CkbVerif.C14
